@@ -40,8 +40,10 @@ PLANS = {
         "thorough": [ex("repT", "repT", 1, 5, alphabet=["a", "b", ","]), ex("rep3", "rep", 3, 3, alphabet=["a", ","]), rec("repR", "rep", 30000, 9, 12)],
     },
     "C03": {
-        "quick": [ex("peg2", "peg", 2, 3), ex("rep2", "rep", 2, 3, alphabet=["a", ","]), rec("pegR", "peg", 1000, 8, 8)],
-        "thorough": [ex("peg3", "peg", 3, 3), ex("rep2", "rep", 2, 5, alphabet=["a", "b", ","]), rec("pegR", "peg", 20000, 10, 10)],
+        "quick": [ex("peg2", "peg", 2, 3), ex("repT", "repT", 1, 3, alphabet=["a", ","], modes=["E"]), ex("err2", "err", 2, 3, etys=ALL_ETYS),
+                  ex("rcv2", "rcv", 2, 3), rec("pegR", "peg", 1000, 8, 8, etys=ALL_ETYS), rec("lblR", "lbl", 1000, 8, 8, etys=ALL_ETYS)],
+        "thorough": [ex("peg3", "peg", 3, 3), ex("repT", "repT", 1, 5, alphabet=["a", "b", ","]), ex("err3", "err", 3, 3, etys=ALL_ETYS),
+                     ex("rcv3", "rcv", 3, 3), rec("pegR", "peg", 20000, 10, 10, etys=ALL_ETYS), rec("lblR", "lbl", 20000, 10, 10, etys=ALL_ETYS)],
     },
     "C04": {
         "quick": [ex("peg2", "peg", 2, 3), ex("emit3", "emit", 3, 3), ex("ctx2", "ctx", 2, 3), rec("emitR", "emit", 1500, 8, 8), rec("pegR", "peg", 1000, 8, 8), rec("ctxR", "ctx", 1000, 8, 8)],
@@ -57,7 +59,8 @@ PLANS = {
     },
     "C07": {
         "quick": [ex("spn3", "spn", 3, 3, alphabet=["a", "b", "E"], kinds=["str"], invariants=INV_SPANS),
-                  ex("spng3", "spng", 3, 3, kinds=["mapped", "mstream"], modes=["E"], invariants=INV_SPANS),
+                  ex("spng3", "spng", 3, 3, kinds=["mstream"], modes=["E"], invariants=INV_SPANS),
+                  ex("spng4", "spng", 4, 3, kinds=["mapped"], modes=["E"], invariants=INV_SPANS),
                   ex("spn2", "spn", 2, 3, kinds=["slice", "array", "bytes"], modes=["E"], invariants=INV_SPANS),
                   ex("spnr3", "spnr", 3, 3, kinds=["mapped", "slice"], modes=["E"], invariants=INV_SPANS),
                   rec("spnR", "spn", 1500, 8, 8, kinds=["str", "slice"]), rec("spngR", "spng", 1500, 8, 8, kinds=["mapped", "mstream", "stream"]),
@@ -78,10 +81,14 @@ PLANS = {
     "C10": {
         "quick": [ex("peg2k", "peg", 2, 2, kinds=ALL_KINDS, modes=["E"]), ex("rep2k", "rep", 2, 3, alphabet=["a", ","], kinds=["stream", "mapped", "io"], modes=["E"]),
                   ex("rcv2k", "rcv", 2, 3, kinds=["bstream", "mstream", "wctx"], modes=["E"]),
-                  rec("pegRk", "peg", 2500, 8, 8, kinds=ALL_KINDS)],
+                  ex("seek4", "seek", 4, 4, kinds=["io", "bstream", "mstream"], modes=["E"]),
+                  ex("spng3k", "spng", 3, 3, kinds=["mapped", "mstream", "wctx", "mapspan"], modes=["E"]),
+                  rec("pegRk", "peg", 2500, 8, 8, kinds=ALL_KINDS), rec("spngRk", "spng", 1500, 8, 8, kinds=["mapped", "mstream", "stream", "wctx", "mapspan", "io"])],
         "thorough": [ex("peg2k", "peg", 2, 3, kinds=ALL_KINDS), ex("rep2k", "rep", 2, 4, alphabet=["a", ","], kinds=ALL_KINDS, modes=["E"]),
                      ex("rcv3k", "rcv", 3, 3, kinds=["bstream", "mstream", "wctx", "io"], modes=["E"]),
-                     rec("pegRk", "peg", 30000, 10, 10, kinds=ALL_KINDS)],
+                     ex("seek5", "seek", 5, 4, kinds=["io", "bstream", "mstream", "stream", "mapped"], modes=["E"]),
+                     ex("spng4k", "spng", 4, 3, kinds=["mapped", "mstream", "wctx", "mapspan"], modes=["E"]),
+                     rec("pegRk", "peg", 30000, 10, 10, kinds=ALL_KINDS), rec("spngRk", "spng", 20000, 10, 10, kinds=["mapped", "mstream", "stream", "wctx", "mapspan", "io"])],
     },
     "C08": {
         "quick": [ex("rcv3", "rcv", 3, 3), ex("rcvT", "rcvT", 1, 4, alphabet=["a", "b", "!"]), rec("rcvR", "rcv", 1500, 8, 8)],
@@ -123,8 +130,14 @@ PLANS = {
                      rec("repR", "rep", 20000, 9, 12)],
     },
     "C20": {
-        "quick": [ex("peg2", "peg", 2, 3, etys=["rich", "empty"]), ex("err2", "err", 2, 3, etys=ALL_ETYS), rec("pegR", "peg", 1500, 8, 8, etys=ALL_ETYS)],
-        "thorough": [ex("peg3", "peg", 3, 3, etys=["rich", "empty"]), ex("err3", "err", 3, 3, etys=ALL_ETYS), rec("pegR", "peg", 30000, 10, 12, etys=ALL_ETYS)],
+        "quick": [ex("peg2", "peg", 2, 3, etys=["rich", "empty"]), ex("err2", "err", 2, 3, etys=ALL_ETYS),
+                  ex("lbl2", "lbl", 2, 3, etys=["empty", "cheap"]), ex("rcv2", "rcv", 2, 3, etys=["empty", "simple"]), ex("memo2", "memo", 2, 3, etys=["empty"]),
+                  rec("pegR", "peg", 1500, 8, 8, etys=ALL_ETYS), rec("lblR", "lbl", 1000, 8, 8, etys=ALL_ETYS), rec("rcvR", "rcv", 1000, 8, 8, etys=ALL_ETYS),
+                  rec("memoR", "memo", 1000, 8, 8, etys=ALL_ETYS)],
+        "thorough": [ex("peg3", "peg", 3, 3, etys=["rich", "empty"]), ex("err3", "err", 3, 3, etys=ALL_ETYS),
+                     ex("lbl3", "lbl", 3, 3, etys=["empty", "cheap"]), ex("rcv3", "rcv", 3, 3, etys=["empty", "simple"]), ex("memo3", "memo", 3, 3, etys=["empty"]),
+                     rec("pegR", "peg", 30000, 10, 12, etys=ALL_ETYS), rec("lblR", "lbl", 20000, 10, 10, etys=ALL_ETYS), rec("rcvR", "rcv", 20000, 10, 10, etys=ALL_ETYS),
+                     rec("memoR", "memo", 20000, 10, 10, etys=ALL_ETYS), rec("repR", "rep", 20000, 9, 12, etys=ALL_ETYS)],
     },
 }
 
